@@ -12,6 +12,31 @@ from .values import (Unknown, BoundMethod, ClassVal, Cursor, DictObj, FrameObj, 
 _MISSING = object()
 
 
+_INIT_ASSIGNS = {}
+
+
+def _assigned_in_init(pyclass, attr):
+    """Does some `__init__` along the class's MRO (source available) contain `self.<attr> = ...`?"""
+    import ast as _ast, inspect as _inspect, textwrap as _tw
+    key = (pyclass, attr)
+    if key in _INIT_ASSIGNS:
+        return _INIT_ASSIGNS[key]
+    found = False
+    for klass in getattr(pyclass, "__mro__", ()):
+        init = vars(klass).get("__init__")
+        if init is None:
+            continue
+        try:
+            tree = _ast.parse(_tw.dedent(_inspect.getsource(init)))
+        except Exception:
+            continue
+        for n in _ast.walk(tree):
+            if isinstance(n, _ast.Attribute) and n.attr == attr and isinstance(n.ctx, _ast.Store) and isinstance(n.value, _ast.Name) and n.value.id == "self":
+                found = True
+    _INIT_ASSIGNS[key] = found
+    return found
+
+
 def get_attr(I, st, base, attr, node):
     site = getattr(node, "lineno", None)
     base = norm_str(base)
@@ -42,6 +67,11 @@ def get_attr(I, st, base, attr, node):
                 # violation; the property's native replayer decides)
                 from .state import ContractError
                 raise ContractError(f"contract does not bind: the model record '{o.cls}' of this contract has no attribute '{attr}' (line {site})")
+            if not getattr(o, "fresh", True) and _assigned_in_init(o.pyclass, attr):
+                # the record was set up by the contract (not by running the real constructor), and the real constructor of this version of the
+                # class assigns this attribute: the contract's set-up no longer describes the object - undecided, not the program's AttributeError
+                from .state import ContractError
+                raise ContractError(f"contract does not bind: '{o.cls}.__init__' assigns '{attr}', which the contract's set-up of that object does not provide (line {site})")
             raise SymRaise(ClassVal("AttributeError", AttributeError), st, f"'{o.cls}' object has no attribute '{attr}'", site)
         if isinstance(o, (ListObj, DictObj, SetObj, FrameObj)):
             return BoundMethod(base, attr)
